@@ -4,6 +4,7 @@ package main
 
 import (
 	"fmt"
+	"os"
 	"math/big"
 	"sort"
 	"strings"
@@ -68,6 +69,7 @@ type Run struct {
 	maxSteps int64
 	redis   interface{}
 	violNeedsModel bool
+	curFr   *frame
 	notes   []string
 }
 
@@ -131,7 +133,7 @@ func (r *Run) branch(t *Term) bool {
 	}
 	rt := r.check(t)
 	if rt == Unknown {
-		r.inconclusive = "solver returned unknown on a branch feasibility query"
+		r.inconclusive = "solver returned unknown on a branch feasibility query at " + r.where()
 		panic(runAbort{"inconclusive"})
 	}
 	if rt == Unsat {
@@ -415,4 +417,14 @@ func sortedKeys(m map[string]bool) []string {
 	}
 	sort.Strings(ks)
 	return ks
+}
+
+func (r *Run) where() string {
+	if r.curFr == nil {
+		return "?"
+	}
+	if os.Getenv("VERIF_DEBUG") != "" {
+		return r.curFr.pos() + "\n" + r.curFr.stack()
+	}
+	return r.curFr.pos()
 }
